@@ -1389,6 +1389,17 @@ class ContactHandler(Messenger, dbus.service.Object):
     @dbus.service.method(DBUS_IFACE, in_signature='', out_signature='')
     def close(self):
         ''' Close the TCP connection immediately. '''
+        # bundles which were never started are reported as not sent
+        while self._tx_pend_start:
+            item = self._tx_pend_start.pop(0)
+            self._tx_map.pop(item.transfer_id, None)
+            self._logger.warning('Closing and ignoring transfer %d', item.transfer_id)
+            self.send_bundle_finished(
+                str(item.transfer_id),
+                item.total_length or 0,
+                'connection closed'
+            )
+
         if tuple(self.locations):
             self.remove_from_connection()
 
